@@ -15,8 +15,42 @@ from . import sym
 from .sym import Lg, Ex, Erf, QFact
 
 
+def frozen(fn, e):
+    """apply an algebraic transformation without letting it rewrite the (already canonical) arguments of the opaque
+    functions: sympy's expand() otherwise expands inside function arguments"""
+    atoms = list(e.atoms(Lg, Ex, Erf))
+    if not atoms:
+        return fn(e)
+    # outermost opaque applications only
+    outer = [a for a in atoms if not any((a is not b) and b.has(a) for b in atoms)]
+    fz = {a: sp.Dummy('fz%d' % k, real=True) for k, a in enumerate(outer)}
+    inv = {v: k for k, v in fz.items()}
+    return fn(e.xreplace(fz)).xreplace(inv)
+
+
+def Xexpand(e, **kw):
+    return frozen(lambda x: sp.expand(x, **kw), sp.sympify(e))
+
+
+def Xcancel(e):
+    return frozen(sp.cancel, sp.sympify(e))
+
+
+def Xfactor(e):
+    return frozen(sp.factor, sp.sympify(e))
+
+
+def Xtogether(e):
+    return frozen(sp.together, sp.sympify(e))
+
+
+def Xfactor_terms(e):
+    return frozen(sp.factor_terms, sp.sympify(e))
+
+
 class Normalizer(object):
-    def __init__(self, conds=()):
+    def __init__(self, conds=(), mode=0):
+        self.mode = mode          # 0: sums are split term by term; 1: summand first brought over a common denominator
         self.conds = list(conds)
         self.atoms = {}
         self.defs = {}
@@ -88,26 +122,31 @@ class Normalizer(object):
                 limits = il + limits
         bsyms = [l[0] for l in limits]
         frees = sorted([s for s in set().union(body.free_symbols, *[l[1].free_symbols | l[2].free_symbols for l in limits])
-                        if s.is_Symbol and s.is_integer and s not in bsyms and str(s).startswith('_')], key=str)
+                        if s.is_Symbol and s.is_integer and s not in bsyms and not s.is_positive], key=str)
         pk = [Symbol('_p%d' % n, integer=True) for n in range(len(frees))]
-        pren = dict(zip(frees, pk))
-        # canonical order of limits: by range, ties broken by minimal srepr of the renamed body
-        groups = {}
-        for l in limits:
-            groups.setdefault((sp.srepr(l[1].xreplace(pren)), sp.srepr(l[2].xreplace(pren))), []).append(l)
         best = None
-        orders = [[]]
-        for key in sorted(groups):
-            perms = list(itertools.permutations(groups[key])) if len(groups[key]) <= 3 else [tuple(groups[key])]
-            orders = [o + list(pm) for o in orders for pm in perms]
-        for order in orders[:24]:
-            ren = dict(pren)
-            ren.update({l[0]: Symbol('_k%d' % n, integer=True) for n, l in enumerate(order)})
-            cb = body.xreplace(ren)
-            cl = [(ren[l[0]], l[1].xreplace(ren), l[2].xreplace(ren)) for l in order]
-            k = (sp.srepr(cb), tuple((sp.srepr(x[1]), sp.srepr(x[2])) for x in cl))
-            if best is None or k < best[0]:
-                best = (k, cb, cl)
+        # canonical form independent of the *names* of parameters and bound indices: minimise over parameter orders
+        # and over orders of equally-ranged limits
+        par_orders = list(itertools.permutations(frees)) if len(frees) <= 4 else [tuple(frees)]
+        for po in par_orders:
+            pren = dict(zip(po, pk))
+            groups = {}
+            for l in limits:
+                groups.setdefault((sp.srepr(l[1].xreplace(pren)), sp.srepr(l[2].xreplace(pren))), []).append(l)
+            orders = [[]]
+            for gkey in sorted(groups):
+                perms = list(itertools.permutations(groups[gkey])) if len(groups[gkey]) <= 3 else [tuple(groups[gkey])]
+                orders = [o + list(pm) for o in orders for pm in perms]
+            for order in orders[:24]:
+                ren = dict(pren)
+                ren.update({l[0]: Symbol('_k%d' % n, integer=True) for n, l in enumerate(order)})
+                cb = body.xreplace(ren)
+                cl = [(ren[l[0]], l[1].xreplace(ren), l[2].xreplace(ren)) for l in order]
+                k = (sp.srepr(cb), tuple((sp.srepr(x[1]), sp.srepr(x[2])) for x in cl))
+                if best is None or k < best[0]:
+                    best = (k, cb, cl, po)
+        frees = list(best[3])
+        best = best[:3]
         key, cbody, climits = best
         if key not in self.atoms:
             name = 'A%d' % len(self.atoms)
@@ -121,15 +160,15 @@ class Normalizer(object):
     # ---- canonical arguments of opaque functions
     @staticmethod
     def canon(a):
-        a = sp.expand(a)
-        a = sp.cancel(sp.together(a)) if a.is_Add or a.has(sp.Pow) else a
-        return sp.factor_terms(a)
+        a = Xexpand(a)
+        a = Xcancel(Xtogether(a)) if a.is_Add or a.has(sp.Pow) else a
+        return Xfactor_terms(a)
 
     def split_log(self, a, bound):
         """Lg(a) -> sum of logs of factors proved positive"""
         a = self.canon(a)
         if a.is_Add:
-            a2 = sp.factor(a)
+            a2 = Xfactor(a)
             if not a2.is_Add:
                 a = a2
         out = Integer(0)
@@ -152,7 +191,8 @@ class Normalizer(object):
             base, ex = f.as_base_exp()
             if isinstance(base, Ex):
                 out += ex * base.args[0]
-            elif self.positive(base, bound):
+            elif self.positive(base, bound) or (ex.is_Rational and not ex.is_Integer and ex.q % 2 == 0):
+                # second case: log(b^(p/2q)) is only defined for b > 0 (real root, positive argument of the log)
                 out += ex * (Lg(base) if not base.is_Mul else self.split_log(base, bound))
             else:
                 rest = rest * f
@@ -164,14 +204,13 @@ class Normalizer(object):
     def norm(self, e, bound=()):
         e = sp.sympify(e)
         if isinstance(e, sp.Indexed):
-            return e.func(e.base, *[(sp.expand(self.norm(i, bound)) if not i.is_Atom else i) for i in e.indices])
+            return e.func(e.base, *[(Xexpand(self.norm(i, bound)) if not i.is_Atom else i) for i in e.indices])
         if e.is_Atom:
             return e
         if isinstance(e, Lg):
             return self.split_log(self.norm(e.args[0], bound), bound)
         if isinstance(e, Ex):
-            a = self.canon(self.norm(e.args[0], bound))
-            return Ex(a)
+            return self.norm_ex(self.norm(e.args[0], bound))
         if isinstance(e, Erf):
             a = self.canon(self.norm(e.args[0], bound))
             if a.could_extract_minus_sign():
@@ -182,6 +221,21 @@ class Normalizer(object):
                 sp.Piecewise(*[(self.norm(v, bound), c) for v, c in e.args])
         if isinstance(e, Sum):
             lims = list(e.limits)          # innermost first
+            if len(lims) > 1:
+                bsy = {l[0] for l in lims}
+                if all(not ((l[1].free_symbols | l[2].free_symbols) & bsy) for l in lims):
+                    # rectangular multi-index sum: canonical nesting -- the index that the fewest kinds of factors depend on
+                    # is summed first (innermost), ties by range; so Sum_i Sum_r Sum_t and Sum_t Sum_r Sum_i normalise alike
+                    def dep_count(l):
+                        kinds = set()
+                        for a_ in e.function.atoms(sp.Indexed):
+                            if l[0] in a_.free_symbols:
+                                kinds.add(str(a_.base.label))
+                        for a_ in e.function.atoms(sp.core.function.AppliedUndef):
+                            if l[0] in a_.free_symbols:
+                                kinds.add(type(a_).__name__)
+                        return (len(kinds), sp.srepr(l[1]), sp.srepr(l[2]))
+                    lims = sorted(lims, key=dep_count)
             (ix, lo, hi) = lims[0]
             outer = tuple((l[0], l[1], l[2]) for l in reversed(lims[1:]))
             inner_bound = tuple(bound) + outer
@@ -202,7 +256,7 @@ class Normalizer(object):
         if e.is_Pow and e.exp.is_Rational and e.exp.q == 2:
             b = self.norm(e.base, bound)
             # sqrt(x**2 * y) etc. is left to sympy; sqrt(c**2)=c for positive c
-            fb = sp.factor(b) if b.is_Add else b
+            fb = Xfactor(b) if b.is_Add else b
             r = Integer(1)
             keep = Integer(1)
             for f in sp.Mul.make_args(fb):
@@ -214,27 +268,84 @@ class Normalizer(object):
             return r * sp.Pow(keep, e.exp)
         return e.func(*[self.norm(a, bound) for a in e.args])
 
+    def norm_ex(self, a):
+        """canonical multiplicative form of exp(a): exp(n log x) = x^n; the rest is brought over a common denominator,
+        the numerator is collected by monomials in the value atoms (coefficients: polynomials in the size symbols) and
+        exp(sum of monomials) = product of exp(monomial)"""
+        a = Xexpand(a)
+        fac = Integer(1)
+        rest = Integer(0)
+        for t_ in sp.Add.make_args(a):
+            c_, l_ = t_.as_coeff_Mul()
+            if isinstance(l_, Lg) and c_.is_Integer:
+                fac = fac * l_.args[0] ** c_          # x > 0: domain of the logarithm
+            elif isinstance(l_, Lg) and c_.is_Rational:
+                fac = fac * Ex(c_ * l_)               # kept as its own factor (the argument of Lg is already canonical)
+            else:
+                rest += t_
+        if rest == 0:
+            return fac
+        # group the remaining additive terms by (monomial in the value atoms, reduced denominator); coefficients are
+        # polynomials in the size symbols.  exp(sum of groups) = product of exp(group)
+        groups = {}
+        order = []
+        for t_ in sp.Add.make_args(Xexpand(rest)):
+            n_, d_ = sp.fraction(Xcancel(t_))
+            cd = Xfactor_terms(d_).as_coeff_Mul()[0]
+            if cd.is_Rational and cd != 1 and cd != 0:
+                n_, d_ = n_ / cd, Xexpand(d_ / cd)
+            if d_.could_extract_minus_sign():
+                n_, d_ = -n_, Xexpand(-d_)
+            for n_i in sp.Add.make_args(Xexpand(n_)):
+                vals = [g for g in n_i.atoms(sp.Indexed, sp.core.function.AppliedUndef, Lg, Ex, Erf)] + \
+                       [g for g in n_i.free_symbols if g.is_Symbol and not g.is_integer]
+                coef, mono = n_i.as_independent(*vals) if vals else (n_i, Integer(1))
+                key = (sp.srepr(mono), sp.srepr(d_))
+                if key not in groups:
+                    groups[key] = [Integer(0), mono, d_]
+                    order.append(key)
+                groups[key][0] += coef
+        for key in sorted(order):
+            coef, mono, d_ = groups[key]
+            coef = sp.factor_terms(sp.factor(sp.expand(coef)))
+            if coef != 0:
+                fac = fac * Ex(coef * mono / d_)
+        return fac
+
+    @staticmethod
+    def reduced_fraction(num, den):
+        """num/den with the common integer content removed and a canonical sign of the denominator"""
+        cn = Xfactor_terms(num).as_coeff_Mul()[0]
+        cd = Xfactor_terms(den).as_coeff_Mul()[0]
+        if cn.is_Rational and cd.is_Rational and cn != 0 and cd != 0:
+            g = sp.gcd(abs(cn), abs(cd))
+            if g != 1:
+                num, den = num / g, Xexpand(den / g)
+        if den.could_extract_minus_sign():
+            num, den = -num, Xexpand(-den)
+        return num / den
+
     def norm_floor(self, a, bound):
-        a = sp.together(sp.expand(a))
+        a = Xtogether(Xexpand(a))
         num, den = sp.fraction(a)
         if den == 1:
             return a if a.is_integer else sp.floor(a)
-        num = sp.expand(num)
+        num = Xexpand(num)
         q = sp.Integer(0)
         for t in sp.Add.make_args(num):
-            r = sp.cancel(t / den)
+            r = Xcancel(t / den)
             if sp.fraction(r)[1] == 1:
                 q += r
         cands = [q]
         for g in sorted(den.free_symbols, key=str):
             try:
-                cq = sp.cancel(sp.expand(num).coeff(g) / sp.expand(den).coeff(g))
+                cq = Xcancel(Xexpand(num).coeff(g) / Xexpand(den).coeff(g))
                 if sp.fraction(cq)[1] == 1 and cq not in cands:
-                    cands.append(sp.expand(cq))
+                    cands.append(Xexpand(cq))
             except Exception:     # pragma: no cover
                 pass
         for qq in cands:
-            rem = sp.expand(num - qq * den)
+            rem = Xexpand(num - qq * den)
             if self.holds(sp.And(den > 0, rem >= 0, rem < den), bound):
                 return qq
         return sp.floor(a)
@@ -249,11 +360,16 @@ class Normalizer(object):
         return e
 
     def norm_sum(self, body, ix, lo, hi, bound):
-        body = sp.expand(body)
+        if self.mode == 1 and body.is_Add and any(f.is_Pow and f.exp.is_negative for t_ in body.args for f in sp.Mul.make_args(t_)):
+            # canonical summand: common denominator (terms that cancel inside the sum do cancel), then one reduced
+            # fraction per numerator monomial -- the same result whether the code summed a + b or summed a and b apart
+            n_, d_ = sp.fraction(Xcancel(Xtogether(body)))
+            body = sp.Add(*[Xcancel(t_ / d_) for t_ in sp.Add.make_args(Xexpand(n_))])
+        body = frozen(sp.expand, body)
         out = Integer(0)
         for term in sp.Add.make_args(body):
             if term.has(sp.Pow) and ix in term.free_symbols:
-                term = sp.factor(sp.cancel(term))
+                term = Xfactor(Xcancel(term))
             c, dep = term.as_independent(ix)
             if dep == 1:
                 out += c * (hi - lo + 1)
@@ -261,11 +377,11 @@ class Normalizer(object):
             deltas = [f for f in sp.Mul.make_args(dep) if isinstance(f, KroneckerDelta) and ix in f.free_symbols]
             if deltas:
                 dlt = deltas[0]
-                df = sp.expand(dlt.args[0] - dlt.args[1])
+                df = Xexpand(dlt.args[0] - dlt.args[1])
                 cf = df.coeff(ix)
-                r0 = sp.expand(df - cf * ix)
+                r0 = Xexpand(df - cf * ix)
                 if cf in (1, -1) and ix not in r0.free_symbols:
-                    sol = sp.expand(-r0 / cf)
+                    sol = Xexpand(-r0 / cf)
                     if self.holds(sp.And(sol >= lo, sol <= hi), bound):
                         rest = sp.Mul(*[f for f in sp.Mul.make_args(dep) if f is not dlt])
                         out += c * self.norm(rest.xreplace({ix: sol}), bound)
@@ -278,20 +394,49 @@ class Normalizer(object):
             out += c * self.atom(dep, ix, lo, hi)
         return out
 
+    def split_ex(self, term, ix):
+        """exp(u(ix) + v) = exp(u(ix)) exp(v) for v free of the summation index"""
+        out = []
+        changed = False
+        for f in sp.Mul.make_args(term):
+            base, ex = f.as_base_exp()
+            if isinstance(base, Ex) and ix in base.free_symbols:
+                a = Xexpand(base.args[0])
+                dep = Integer(0)
+                ind = Integer(0)
+                for t_ in sp.Add.make_args(a):
+                    if ix in t_.free_symbols:
+                        dep += t_
+                    else:
+                        ind += t_
+                if ind != 0:
+                    out.append(Ex(self.canon(dep)) ** ex * Ex(self.canon(ind)) ** ex)
+                    changed = True
+                    continue
+            out.append(f)
+        return sp.Mul(*out) if changed else term
+
     def is_zero(self, e):
         e = self.norm(e)
         if e == 0:
             return True, e
-        e = sp.expand(e)
+        e = frozen(sp.expand, e)
         if e == 0:
             return True, e
-        e = sp.cancel(sp.together(e))
+        e = Xcancel(Xtogether(e))
         return e == 0, e
 
 
 def prove_equal(a, b, conds=()):
     """decide a == b as an identity under conds; returns (status, residual, normalizer)
     status: 'proved' | 'open'"""
-    nz = Normalizer(conds)
-    ok, res = nz.is_zero(sp.sympify(a) - sp.sympify(b))
-    return ('proved' if ok else 'open'), res, nz
+    first = None
+    for mode in (0, 1):
+        # every rewrite is an equivalence, so the identity is proved as soon as one normalisation strategy closes it
+        nz = Normalizer(conds, mode)
+        ok, res = nz.is_zero(sp.sympify(a) - sp.sympify(b))
+        if ok:
+            return 'proved', res, nz
+        if first is None:
+            first = (res, nz)
+    return 'open', first[0], first[1]
